@@ -255,7 +255,9 @@ def main():
                "Extension modules X01 (Printing), X02 (MatAlgebra), X03 (DenseElem) extend the specification beyond the 20 "
                "listed properties (./check X0n --tier quick|thorough; evidence in evidence_ext/, divergences printed as "
                "EXT-VIOLATION); they are not claimed as property checks.  Every driver rotates the memory layout and the "
-               "element type of the arrays handed to pyttb (DESIGN 12.7)."),
+               "element type of the arrays handed to pyttb, and further property-specific presentations (magnitudes, scalar "
+               "types, key forms, index offsets; DESIGN 12.7); pure operations are also checked for leaving their operands "
+               "unchanged.  200 seeded property-breaking changes with their verdicts are kept under seeded/ (DESIGN 12.6)."),
      "not_applicable": []
     }
     engines = {}
